@@ -3,6 +3,7 @@ import Adsb.Icao
 import Adsb.Velocity
 import Adsb.TrackerF
 import Adsb.Display
+import Adsb.Ui
 /-! Line-protocol driver: one operation per input line, one canonical line of output. -/
 open Adsb
 
@@ -48,8 +49,70 @@ def opCpr (A B : Buf) : String :=
     | none => "POS none"
   | _, _ => "POS n/a"
 
+
+/-! ### `U`: radar's handlers on a scripted history.  Tokens: `rows:n:bits` (table size and which rows have a position),
+`btn:none` | `btn:y0:h0:y1:y2`, `left:n`, `draw` (one draw = selection clamp), `k:…` keys, `m:…` mouse, `rs` resize -/
+structure UEnv where
+  rows : Nat := 0
+  det : List Bool := []
+  buttons : Option (Rect × Rect × Rect) := none
+  lb : Nat := 1
+
+def tabName : Tab → String
+  | .map => "Map" | .coverage => "Coverage" | .airplanes => "Airplanes" | .stats => "Stats" | .help => "Help"
+
+def showUI (u : UI) : String :=
+  s!"UI tab={tabName u.tab} quit={u.quit} sel={match u.selected with | some s => toString s | none => "none"} zoom={u.zoom} plat={u.panLat} plon={u.panLon} custom={u.custom} base={match u.base with | some s => toString s | none => "none"} flags={u.flags}"
+
+def parseKey (t : List String) : Option Key :=
+  match t with
+  | ["F1"] => some (.f 1) | ["F2"] => some (.f 2) | ["F3"] => some (.f 3) | ["F4"] => some (.f 4) | ["F5"] => some (.f 5)
+  | ["tab"] => some .tab | ["up"] => some .up | ["down"] => some .down | ["left"] => some .left | ["right"] => some .right
+  | ["enter"] => some .enter | ["other"] => some .other
+  | ["c", n, ctrl] => match n.toNat? with
+    | some k => some (.char (Char.ofNat k) (ctrl == "1"))
+    | none => none
+  | _ => none
+
+def parseMouse (t : List String) : Option Mouse :=
+  match t with
+  | ["down", c, r] => match c.toNat?, r.toNat? with | some c, some r => some (.down c r) | _, _ => none
+  | ["drag", c, r] => match c.toNat?, r.toNat? with | some c, some r => some (.drag c r) | _, _ => none
+  | ["up"] => some .up | ["su"] => some .scrollUp | ["sd"] => some .scrollDown | ["other"] => some .other
+  | _ => none
+
+def uStep (env : UEnv) (ui : UI) (tok : String) : Option (UEnv × Res UI) :=
+  if ui.quit then some (env, .ok ui) else      -- after a quit request the loop has ended
+  match tok.splitOn ":" with
+  | ["rows", n, bits] => match n.toNat? with
+    | some n => some ({ env with rows := n, det := (if bits == "-" then [] else bits.toList.map (· == '1')) }, .ok ui)
+    | none => none
+  | ["btn", "none"] => some ({ env with buttons := none }, .ok ui)
+  | ["btn", y0, h0, y1, y2] => match y0.toNat?, h0.toNat?, y1.toNat?, y2.toNat? with
+    | some y0, some h0, some y1, some y2 => some ({ env with buttons := some (⟨0, y0, 10, h0⟩, ⟨0, y1, 10, h0⟩, ⟨0, y2, 10, h0⟩) }, .ok ui)
+    | _, _, _, _ => none
+  | ["left", n] => match n.toNat? with | some n => some ({ env with lb := n }, .ok ui) | none => none
+  | ["draw"] => some (env, .ok (drawClamp ui env.rows))
+  | ["rs"] => some (env, handleEvent ui .resize env.rows (fun i => env.det.getD i false) env.buttons env.lb)
+  | "k" :: rest => match parseKey rest with
+    | some k => some (env, handleEvent ui (.key k) env.rows (fun i => env.det.getD i false) env.buttons env.lb)
+    | none => none
+  | "m" :: rest => match parseMouse rest with
+    | some m => some (env, handleEvent ui (.mouse m) env.rows (fun i => env.det.getD i false) env.buttons env.lb)
+    | none => none
+  | _ => none
+
+def uRun : UEnv → UI → List String → String
+  | _, ui, [] => showUI ui
+  | env, ui, t :: rest => match uStep env ui t with
+    | none => "BADOP"
+    | some (env', .ok ui') => uRun env' ui' rest
+    | some (_, .err e) => s!"ERR {e.name}"
+    | some (_, .panic p) => s!"PANIC {p}"
+
 def runOp (line : String) : String :=
   match line.trimAscii.toString.splitOn " " |>.filter (· ≠ "") with
+  | "U" :: toks => uRun {} {} toks
   | ["F", h] => match parseBuf h with
       | some B => showRes Frame.show (decode B)
       | none => "BADOP"
